@@ -77,6 +77,21 @@ func Closures(m map[string]int) (int, int) {
 	return a, b // with pre-1.22 semantics every closure sees the last iteration's variables
 }
 
+// LoopVar: the module declares go 1.12, so loop variables are shared between iterations; the
+// instrumented build must keep that language version (a dependency with a newer go directive would
+// silently raise it and change what this function returns).
+func LoopVar(xs []int) int {
+	var ps []*int
+	for _, x := range xs {
+		ps = append(ps, &x)
+	}
+	t := 0
+	for _, p := range ps {
+		t += *p
+	}
+	return t
+}
+
 // NonString: maps with other key types stay native.
 func NonString(m map[int]string, n map[named]int) (string, int) {
 	var parts []string
